@@ -14,7 +14,7 @@ ASSUMPTIONS = ["'bounded time' is judged with a generous virtual-time budget (TF
 RULE = ("send histories mixing the four modes, an arbitrary finite fault prefix (loss/dup/reorder of data, ack and sync frames in both directions, pauses), then a fair loss-free "
         "suffix until quiescence; all window sizes and initial ids. Oracle: on each channel no packet is delivered while an earlier Reliable packet of that channel is undelivered; "
         "at quiescence every Reliable packet was delivered exactly once, is_send_pending() is false and send_buffer_size() is 0; quiescence is reached within the budget. "
-        "Non-trivial: a Reliable packet had to be resent. Distinct by (windows, faults, volume).")
+        "Non-trivial: a Reliable packet had to be resent. Distinct by (windows, faults, volume). Round-6 family: a Reliable packet of 33-70 fragments, single fragments lost on first transmission.")
 
 def streams(rng, tier, ctx):
     n = 24 if tier == "quick" else 500
